@@ -145,7 +145,9 @@ Definition look_ok (kept : N) (U seen : list block) (qh qi : list N) (mon : fin_
 Definition last_new (acc : N) (evs : list event) : N :=
   fold_left (fun a e => match estep e with SNew | SNewIrr => bid (eblk e) | _ => a end) evs acc.
 
-Fixpoint c18_follow (kept : N) (lib : N) (root : ref) (U : list block) (qh qi : list N)
+(* disc: discovery mode (no LIB configured).  The first finality announcement of such a stream ESTABLISHES the LIB
+   (SetLIB, which does not purge): it is not a "LIB move", the bound is demanded from the next move on *)
+Fixpoint c18_follow (disc : bool) (kept : N) (lib : N) (root : ref) (U : list block) (qh qi : list N)
          (mon : fin_mon) (lastnew : N) (seen : list block) (h : list block) (os : list obs) : bool :=
   match h, os with
   | b :: h', o :: os' =>
@@ -153,7 +155,11 @@ Fixpoint c18_follow (kept : N) (lib : N) (root : ref) (U : list block) (qh qi : 
       | None => false
       | Some mon' =>
           let seen' := b :: seen in
-          let moved := existsb (fun e => match estep e with SIrr => true | _ => false end) (o_events o) in
+          (* a LIB MOVE: a finality announcement after which the last final block is another block than before
+             (the announcement of the starting LIB block itself, inclusive mode, moves nothing and purges nothing) *)
+          let moved := existsb (fun e => match estep e with SIrr => true | _ => false end) (o_events o)
+                       && negb (ref_eqb (fm_last mon) (fm_last mon'))
+                       && negb (disc && negb (fm_any mon)) in
           let lastnew' := last_new lastnew (o_events o) in
           (* head information = last block delivered as New *)
           (negb (result_eqb (o_result o) ROk) ||
@@ -161,7 +167,7 @@ Fixpoint c18_follow (kept : N) (lib : N) (root : ref) (U : list block) (qh qi : 
           (match o_look o with
            | Some l => negb (result_eqb (o_result o) ROk) || look_ok kept U seen' qh qi mon' moved l
            | None => true end) &&
-          c18_follow kept lib root U qh qi mon' lastnew' seen' h' os'
+          c18_follow disc kept lib root U qh qi mon' lastnew' seen' h' os'
       end
   | _, _ => true
   end.
@@ -171,7 +177,7 @@ Definition c18_in_scope (k : fk_case) : bool :=
 Definition c18_prop (k : fk_case) : bool :=
   negb (c18_in_scope k) ||
   let root := root_ref (k_mode k) (obs_trace k) in
-  c18_follow (c_kept (k_cfg k)) (ri root) root (k_hist k) (k_qh k) (k_qi k)
+  c18_follow (match k_mode k with LNone => true | _ => false end) (c_kept (k_cfg k)) (ri root) root (k_hist k) (k_qh k) (k_qi k)
              (mkFM [] 0 root false [] []) 0 [] (k_hist k) (k_obs k).
 Definition c18_verdict (k : fk_case) : N := combine k (c18_prop k).
 Definition c18_verdicts (l : list fk_case) := nonzero (map c18_verdict l).
